@@ -27,6 +27,15 @@ def clayton(vc):
     return vc.obj(LV + "ClaytonCopula", eta=eta, **{"theta": theta}), theta, eta
 
 
+def pinned(vc, eta):
+    """sympy substitution for eta when the path condition forces its value (the code branches on a zero orthant weight)"""
+    et = sp.Symbol("eta", nonnegative=True)
+    for v in (0, 1):
+        if not vc.path._feasible(as_real_term(lift(eta)) != v):
+            return {et: sp.Integer(v)}
+    return {}
+
+
 def signed_args(vc, signs, prefix="u"):
     """one symbolic argument per coordinate with the given sign; returns (Sym values, sympy positive magnitudes)"""
     us, mags = [], []
@@ -69,7 +78,7 @@ class ClaytonGroundedAndMargins(Lemma):
         vc.check(nm + "::grounded", it.call(cop, [arr], {}) == 0)
         margin = it.get_function("rpylib.model.levycopulamodel:margin")
         m = it.call(it.call(margin, [cop, [i], d], {}), [np.array([u], dtype=object)], {})
-        vc.check_zero(nm + "::margin-is-the-identity", sp.simplify(sp.powdenest(vc.sp(m), force=True)) - s * mag, sampler([mag]))
+        vc.check_zero(nm + "::margin-is-the-identity", sp.simplify(sp.powdenest(vc.sp(m).subs(pinned(vc, eta)), force=True)) - s * mag, sampler([mag]))
 
     def replay(self, model, clause, case):
         from rpylib.distribution.levycopula import ClaytonCopula
@@ -80,6 +89,43 @@ class ClaytonGroundedAndMargins(Lemma):
         got = margin(c, [i], d)(np.array([u]))
         z = np.array([0.0 if k == i else 0.4 * (k + 1) for k in range(d)])
         return (abs(got - u) > 1e-10 or c(z) != 0.0, {"theta": 0.7, "eta": 0.3, "u": u, "margin": float(got), "F_at_zero_coordinate": float(c(z))})
+
+
+class ClaytonInfiniteCorners(Lemma):
+    """Clayton at a corner with every argument infinite: the value is the limit of the finite formula -- +inf / -inf times
+    the orthant weight eta / (1 - eta) when that weight is positive, 0 when the weight is 0 (never NaN)"""
+    prop = "C11"
+    cases = tuple(s for d in (2, 3) for s in itertools.product((+1, -1), repeat=d))
+
+    def __init__(self):
+        self.name = "property:clayton-all-infinite-corner"
+
+    def prove(self, vc, signs):
+        import math
+        nm = f"{self.name}[{''.join('+' if s > 0 else '-' for s in signs)}]"
+        cop, theta, eta = clayton(vc)
+        val = vc.interp.call(cop, [np.array([s * INF for s in signs], dtype=float)], {})
+        positive_orthant = int(np.prod(signs)) > 0
+        weight = eta if positive_orthant else 1 - eta
+        is_nan = (not is_sym(val)) and isinstance(val, float) and math.isnan(val)
+        vc.check(nm + "::never-nan", not is_nan)
+        if is_nan:
+            return
+        if vc.interp.truth(weight > 0):
+            vc.check(nm + "::infinite-with-the-sign-of-the-orthant", (not is_sym(val)) and val == (INF if positive_orthant else -INF))
+        else:
+            vc.check(nm + "::zero-when-the-orthant-has-no-weight", val == 0)
+
+    def replay(self, model, clause, signs):
+        from rpylib.distribution.levycopula import ClaytonCopula
+        out = {}
+        bad = False
+        for eta in (0.0, 0.3, 1.0):
+            with np.errstate(all="ignore"):
+                v = float(ClaytonCopula(theta=0.7, eta=eta)(np.array([s * np.inf for s in signs])))
+            out[f"eta={eta}"] = v
+            bad = bad or np.isnan(v)
+        return (bool(bad), {"corner": [s * float("inf") for s in signs], "values": out})
 
 
 class ClaytonMixedDerivative(Lemma):
@@ -100,7 +146,10 @@ class ClaytonMixedDerivative(Lemma):
         arr = np.array(us, dtype=object)
         F = vc.sp(it.call(cop, [arr], {}))
         X = vc.sp(vc.method(cop, "x_first_derivative", arr))
+        pin = pinned(vc, eta)
+        F, X = F.subs(pin), X.subs(pin)
         th, et = sp.Symbol("theta", positive=True), sp.Symbol("eta", nonnegative=True)
+        et = pin.get(et, et)
         # d/du_k = sign_k * d/d|u_k|
         mixed = F
         for s, m in zip(signs, mags):
@@ -184,7 +233,19 @@ class PiecewiseLinearCopulas(Lemma):
         C = getattr(importlib.import_module("rpylib.distribution.levycopula"), cls)()
         f = lambda v, dflt: float(v["float"]) if isinstance(v, dict) else (float(v) if v is not None else dflt)
         if kind == "grounded-margins":
-            return None
+            from rpylib.model.levycopulamodel import margin
+            uv = model.get("u")
+            u = f(uv, 0.7)
+            u = max(min(u, 50.0), -50.0) or 0.7
+            out, bad = {}, False
+            for uu in (u, -u):
+                for i in range(d):
+                    got = float(margin(C, [i], d)(np.array([uu])))
+                    out[f"margin{i}({uu})"] = got
+                    bad = bad or abs(got - uu) > 1e-12
+                    z = np.array([0.0 if k == i else 0.3 * (k + 1) for k in range(d)])
+                    bad = bad or float(C(z)) != 0.0
+            return (bool(bad), {"copula": cls, "dimension": d, **out})
         am = model.get("a") if isinstance(model.get("a"), list) else [None] * d
         a = [f(am[k], -1.0 + k) for k in range(d)]
         b = [f(model.get(f"b_{k}"), a[k] + 1.0) if kind[k] == "f" else np.inf for k in range(d)]
@@ -256,7 +317,7 @@ class ClaytonConditional(Lemma):
         return (bool(bad), {"eps": eps, "x": x, "F": float(v[0]), "inverse": float(back[0]), "F_on_grid": vals})
 
 
-UNITS = [ClaytonGroundedAndMargins(), ClaytonMixedDerivative(), ClaytonConditional(), PiecewiseLinearCopulas()]
+UNITS = [ClaytonGroundedAndMargins(), ClaytonInfiniteCorners(), ClaytonMixedDerivative(), ClaytonConditional(), PiecewiseLinearCopulas()]
 ASSUMPTIONS = ["A1: floats are mathematical reals", "A6: a function with non-negative mixed partial derivative on an orthant gives non-negative volumes to rectangles inside it (d-dimensional FTC); volumes across orthants follow from additivity + groundedness",
                "A4: sympy's calculus / power simplification with positive symbols"]
 TRUSTED_BASE = ["sympy 1.14", "z3 5.1", "pyvc interpreter + numpy models, z3->sympy translation"]
